@@ -470,7 +470,7 @@ class MixedImports(object):
         imps2.setdefault(v1mod, []).append(kept)
         m2 = {'name': 'V2TEST-MIB', 'imports': sorted(imps2.items()), 'decls': d2}
         t1, t2 = mibspec.pretty([m1]), mibspec.pretty([m2])
-        sig = 'C16|moved-and-kept|%s|%s+%s|%s' % (v1mod, moved, kept, case['backend'])
+        sig = '%s|moved-and-kept|%s|%s+%s|%s' % (getattr(self, 'prefix', 'C16'), v1mod, moved, kept, case['backend'])
         r1, w1 = compile_v({'V1TEST-MIB': t1}, ['V1TEST-MIB'], case['backend'])
         r2, w2 = compile_v({'V2TEST-MIB': t2}, ['V2TEST-MIB'], case['backend'])
         if r2.get('V2TEST-MIB') != 'compiled':
